@@ -388,9 +388,10 @@ class Gen:
             k = r.random()
             if k < 0.3:
                 f.enumeration = sorted(set(r.choice(["A", "b", "North East", "x-1", "é", "Q&A", "10", "None", "", '2.5"', "C:\\dir"]) for _ in range(r.randrange(1, 6))))
-                if f.enumeration == [""]:
-                    # the empty string as the *only* value leaves nothing that yaserde 0.12 can read back (empty text, DESIGN §10)
-                    f.enumeration = ["", "A"]
+                if not any(x != "" and not any(c in x for c in "<>&\"'") for x in f.enumeration):
+                    # nothing but the empty string (and members with markup characters, which the client profiles leave out of
+                    # replies): that would leave nothing that yaserde 0.12 can read back (empty text, DESIGN §10)
+                    f.enumeration = sorted(set(f.enumeration) | {"A"})
                 import random as _random
                 if len(f.enumeration) >= 2 and _random.Random("enum-dup:" + nm.xml).random() < 0.3:
                     # the same value listed twice (legal, and harmless for the value space)
@@ -411,7 +412,7 @@ class Gen:
                         if getattr(bf, key) is not None:
                             setattr(inherited, key, getattr(bf, key))
                 if inherited.enumeration is not None:
-                    f.enumeration = ([x for x in inherited.enumeration if x != ""][:1] or inherited.enumeration[:1]) if f.enumeration is not None else None
+                    f.enumeration = ([x for x in inherited.enumeration if x != "" and not any(c in x for c in "<>&\"'")][:1] or inherited.enumeration[:1]) if f.enumeration is not None else None
                     f.length = f.min_length = f.max_length = None
                 if inherited.length is not None or inherited.min_length is not None or inherited.max_length is not None:
                     f.length = f.min_length = f.max_length = None
